@@ -398,6 +398,10 @@ class Guard:
         return ("G", self.kind) + tuple(conv(a) for a in self.args)
 
 
+class GenList(list):
+    """The (eagerly computed) items of a generator expression / iter(...): a list that is also an iterator (next() consumes it)."""
+
+
 class Phi:
     """Join of a value with None under a symbolic condition (`x = None; if c: x = v`): cond true -> a, false -> b.
     Only identity tests against None look inside it; a branch on such a test refines the variable to the matching side."""
